@@ -72,3 +72,194 @@ Proof.
   - clear H. induction l as [|[y sub] l IH]; [reflexivity|].
     cbn [existsb map fst]. rewrite mem_cons, (N.eqb_sym x y), IH. reflexivity.
 Qed.
+
+(* ================================================================ change_constants = rebuild *)
+Lemma filter_nil {A} (f : A -> bool) l : filter f l = [] -> forall x, In x l -> f x = false.
+Proof.
+  induction l as [|a l IH]; cbn; intros H x Hx; [destruct Hx|].
+  destruct (f a) eqn:E; [discriminate|]. destruct Hx as [->|Hx]; auto.
+Qed.
+
+Lemma update_vals_id vals nc :
+  filter (fun k => is_some (lookup nc k)) (map fst vals) = [] -> update_vals vals nc = vals.
+Proof.
+  intros H. pose proof (filter_nil _ _ H) as Hn. clear H.
+  unfold update_vals. induction vals as [|[k v] vals IH]; cbn; auto.
+  rewrite IH by (intros x Hx; apply Hn; cbn; auto).
+  specialize (Hn k (or_introl eq_refl)). cbn in Hn. destruct (lookup nc k); [discriminate|reflexivity].
+Qed.
+
+Definition cc_joint (nc : list (ident * Q)) :=
+  fix go (l : list (ident * scope)) (ks : list cst) : list (ident * scope) * list cst * bool :=
+    match l with
+    | [] => ([], [], false)
+    | (x, sub) :: r =>
+        let a := cc sub (hd cempty ks) nc in
+        let '(l', ks', w) := go r (tl ks) in
+        ((x, ch_scope a) :: l', ch_cst a :: ks', ch_warned a || w)
+    end.
+
+Lemma cc_joint_eq l c nc :
+  cc (SJoint l) c nc =
+  let '(l', ks', w) := cc_joint nc l (c_kids c) in mkChanged (SJoint l') (CNode [] None None ks') false w.
+Proof. reflexivity. Qed.
+
+Lemma cc_scope_rebuild : forall s c nc,
+  ch_scope (cc s c nc) = rebuild s nc /\ (ch_same (cc s c nc) = true -> rebuild s nc = s).
+Proof.
+  induction s using scope_ind'; intros c nc.
+  - cbn. destruct (filter _ (map fst vals)) eqn:E; cbn.
+    + rewrite (update_vals_id _ _ E). auto.
+    + split; [reflexivity|discriminate].
+  - cbn. destruct (IHs (kid0 c) nc) as [E1 E2].
+    destruct (ch_same (cc s (kid0 c) nc)) eqn:Es; cbn.
+    + rewrite (E2 eq_refl). auto.
+    + rewrite E1. split; [reflexivity|discriminate].
+  - cbn. destruct (IHs (kid0 c) nc) as [E1 _]. rewrite E1. split; [reflexivity|discriminate].
+  - rewrite cc_joint_eq. cbn [rebuild].
+    assert (forall ks, fst (fst (cc_joint nc l ks)) = map (fun p => (fst p, rebuild (snd p) nc)) l) as Hl.
+    { induction H as [|[x sub] l Hs Hl IH]; intros ks; [reflexivity|].
+      cbn [cc_joint map fst snd]. specialize (IH (tl ks)).
+      destruct (cc_joint nc l (tl ks)) as [[l' ks'] w]. cbn in *. rewrite IH.
+      destruct (Hs (hd cempty ks) nc) as [E1 _]. now rewrite E1. }
+    specialize (Hl (c_kids c)). destruct (cc_joint nc l (c_kids c)) as [[l' ks'] w]. cbn in *.
+    rewrite Hl. split; [reflexivity|discriminate].
+Qed.
+
+Lemma cc_warned : forall s c nc, ch_warned (cc s c nc) = changes_non_volatile s nc.
+Proof.
+  induction s using scope_ind'; intros c nc.
+  - cbn [cc changes_non_volatile]. destruct (filter _ (map fst vals)) as [|k0 r0] eqn:E.
+    + cbn [ch_warned]. pose proof (filter_nil _ _ E) as Hn. symmetry. clear E.
+      induction (map fst vals) as [|k ks IH]; [reflexivity|]. cbn [existsb].
+      rewrite (Hn k (or_introl eq_refl)). cbn. apply IH. intros x Hx. apply Hn. cbn; auto.
+    + cbn [ch_warned]. rewrite <- E. clear E. induction (map fst vals) as [|k ks IH]; [reflexivity|].
+      cbn [filter existsb]. destruct (is_some (lookup nc k)); cbn [existsb andb orb]; rewrite IH; reflexivity.
+  - cbn. rewrite <- (IHs (kid0 c) nc). destruct (ch_same _); reflexivity.
+  - cbn. apply IHs.
+  - rewrite cc_joint_eq. cbn [changes_non_volatile].
+    assert (forall ks, snd (cc_joint nc l ks) = existsb (fun p => changes_non_volatile (snd p) nc) l) as Hl.
+    { induction H as [|[x sub] l Hs Hl IH]; intros ks; [reflexivity|].
+      cbn [cc_joint existsb snd]. specialize (IH (tl ks)).
+      destruct (cc_joint nc l (tl ks)) as [[l' ks'] w]. cbn in *. now rewrite IH, Hs. }
+    specialize (Hl (c_kids c)). destruct (cc_joint nc l (c_kids c)) as [[l' ks'] w]. cbn in *. exact Hl.
+Qed.
+
+(* ================================================================ volatility (cache-free access path) *)
+Require Import QV.C13.Pure.
+
+Lemma mem_nodupN x l : mem x (nodupN l) = mem x l.
+Proof.
+  induction l as [|y l IH]; [reflexivity|]. cbn [nodupN].
+  destruct (mem y l) eqn:E; rewrite ?mem_cons, IH; auto.
+  destruct (N.eqb x y) eqn:E2; auto. apply N.eqb_eq in E2; subst. now rewrite E.
+Qed.
+
+Lemma mem_removeN x n l : mem x (removeN n l) = mem x l && negb (N.eqb x n).
+Proof. unfold removeN. apply mem_filter. Qed.
+
+Lemma existsb_mem_true f x l : mem x l = true -> f x = true -> existsb f l = true.
+Proof.
+  intros H1 H2. apply existsb_exists. exists x. split; auto. now apply mem_spec.
+Qed.
+
+Lemma existsb_nodupN f l : existsb f (nodupN l) = existsb f l.
+Proof.
+  induction l as [|y l IH]; [reflexivity|]. cbn [nodupN existsb].
+  destruct (mem y l) eqn:E; cbn [existsb]; rewrite IH; auto.
+  destruct (f y) eqn:Ef; auto. cbn. eapply existsb_mem_true; eauto.
+Qed.
+
+Lemma existsb_ext' {A} (f g : A -> bool) l : (forall x, f x = g x) -> existsb f l = existsb g l.
+Proof. intros H. induction l; cbn; auto. now rewrite H, IHl. Qed.
+
+Lemma nodup_keys_cons {A} x (a : A) l : nodup_keys ((x, a) :: l) = true -> lookup l x = None /\ nodup_keys l = true.
+Proof.
+  cbn. intros H. apply andb_prop in H as [H1 H2]. split; auto. destruct (lookup l x); [discriminate|reflexivity].
+Qed.
+
+Lemma pcollect_spec g iv : forall m acc ks,
+  nodup_keys m = true -> pcollect g iv m acc = Ok ks ->
+  forall x, mem x ks = match lookup m x with
+                       | Some e => existsb (fun y => mem y iv) (vars e)
+                       | None => mem x acc
+                       end.
+Proof.
+  induction m as [|[p e] m IH]; intros acc ks Hnd H x.
+  - cbn in H. injection H as <-. reflexivity.
+  - apply nodup_keys_cons in Hnd as [Hp Hnd]. cbn [pcollect] in H. cbn [lookup].
+    destruct (existsb (fun y => mem y iv) (vars e)) eqn:Ed.
+    + destruct (pfold g _ []); [|discriminate].
+      specialize (IH _ _ Hnd H x).
+      destruct (N.eqb p x) eqn:Epx.
+      * apply N.eqb_eq in Epx; subst x. rewrite Hp in IH. rewrite IH, Ed.
+        destruct (mem p acc) eqn:Em; [exact Em|]. rewrite mem_app, mem_cons, N.eqb_refl. cbn. apply orb_true_r.
+      * destruct (lookup m x); auto. rewrite IH.
+        destruct (mem p acc); [reflexivity|]. rewrite mem_app, mem_cons. rewrite (N.eqb_sym x p), Epx. cbn.
+        now rewrite orb_false_r.
+    + specialize (IH _ _ Hnd H x).
+      destruct (N.eqb p x) eqn:Epx.
+      * apply N.eqb_eq in Epx; subst x. rewrite Hp in IH. rewrite IH, Ed, mem_removeN, N.eqb_refl. cbn.
+        apply andb_false_r.
+      * destruct (lookup m x); auto. rewrite IH, mem_removeN, (N.eqb_sym x p), Epx. cbn. apply andb_true_r.
+Qed.
+
+Definition pvol_joint :=
+  fix go (l : list (ident * scope)) (acc : list ident) : result (list ident) :=
+    match l with
+    | [] => Ok acc
+    | (x, sub) :: l' =>
+        match pvol sub with
+        | Ok iv => go l' (if mem x iv then acc ++ [x] else acc)
+        | Err e => Err e
+        end
+    end.
+
+Definition dep_joint (x : ident) :=
+  fix go (l : list (ident * scope)) : bool :=
+    match l with
+    | [] => false
+    | (y, sub) :: l' => if N.eqb y x then depends_on_volatile sub x else go l'
+    end.
+
+Lemma dep_joint_none x l : lookup l x = None -> dep_joint x l = false.
+Proof.
+  induction l as [|[y sub] l IH]; [reflexivity|]. cbn. destruct (N.eqb y x); [discriminate|auto].
+Qed.
+
+Lemma pvol_depends : forall s, wf_scope s = true -> forall ks, pvol s = Ok ks ->
+  forall x, mem x ks = depends_on_volatile s x.
+Proof.
+  induction s using scope_ind'; intros Hwf ks Hv x.
+  - cbn in Hv. injection Hv as <-. cbn. apply mem_nodupN.
+  - cbn [wf_scope] in Hwf. apply andb_prop in Hwf as [Hwo Hwm].
+    cbn [pvol] in Hv. destruct (pvol s) as [iv|] eqn:Ei; [|discriminate].
+    specialize (IHs Hwo iv eq_refl).
+    assert (forall e, existsb (fun y => mem y iv) (vars e) = existsb (depends_on_volatile s) (free_vars e)) as Hex.
+    { intros e. unfold vars. rewrite existsb_nodupN. apply existsb_ext'. exact IHs. }
+    cbn [depends_on_volatile].
+    destruct iv as [|a r].
+    + injection Hv as <-. destruct (lookup m x).
+      * rewrite <- Hex. induction (vars e); cbn; auto.
+      * apply IHs.
+    + rewrite (pcollect_spec _ _ _ _ _ Hwm Hv x). destruct (lookup m x); auto.
+  - cbn in Hv. destruct (pvol s) as [iv|] eqn:Ei; [|discriminate]. cbn in Hv. injection Hv as <-.
+    cbn [depends_on_volatile]. rewrite mem_removeN, (IHs Hwf iv eq_refl).
+    destruct (N.eqb x n); cbn; auto using andb_false_r, andb_true_r.
+  - cbn [wf_scope] in Hwf. apply andb_prop in Hwf as [Hnd Hwl].
+    change (pvol (SJoint l)) with (pvol_joint l []) in Hv.
+    change (depends_on_volatile (SJoint l) x) with (dep_joint x l).
+    assert (forall acc ks, pvol_joint l acc = Ok ks -> mem x ks = mem x acc || dep_joint x l) as Hl.
+    { clear Hv ks. induction H as [|[y sub] l Hs Hl IH]; intros acc ks Hv.
+      - cbn in Hv. injection Hv as <-. cbn. now rewrite orb_false_r.
+      - apply nodup_keys_cons in Hnd as [Hy Hnd]. cbn [forallb snd] in Hwl. apply andb_prop in Hwl as [Hws Hwl].
+        cbn [pvol_joint] in Hv. destruct (pvol sub) as [iv|] eqn:Ei; [|discriminate].
+        cbn [snd] in Hs. specialize (Hs Hws iv Ei).
+        rewrite (IH Hnd Hwl _ _ Hv). cbn [dep_joint].
+        destruct (N.eqb y x) eqn:Eyx.
+        + apply N.eqb_eq in Eyx; subst y. rewrite (dep_joint_none _ _ Hy), orb_false_r, <- Hs.
+          destruct (mem x iv); [|now rewrite orb_false_r]. rewrite mem_app, mem_cons, N.eqb_refl. cbn. now rewrite !orb_true_r.
+        + destruct (mem y iv); [|reflexivity]. rewrite mem_app, mem_cons, (N.eqb_sym x y), Eyx. cbn.
+          now rewrite orb_false_r. }
+    rewrite (Hl [] ks Hv). reflexivity.
+Qed.
